@@ -2,7 +2,7 @@
 # dev helper: tools/merge_agent.sh /tmp/w_x/verif [base-commit]   3-way merges the agent's edits of shared files
 W=$1; BASE=${2:-2752266}
 cd /verif
-for f in tools/props.py tools/manifest_text.py tools/extract_consts.cpp tools/vlib.py check harness/libvh/vh.h tools/mkmanifest.py FRAMEWORK.md; do
+for f in tools/extract_consts.cpp tools/vlib.py check harness/libvh/vh.h tools/mkmanifest.py FRAMEWORK.md; do
   if [ -e $W/$f ] && ! cmp -s $W/$f $f; then
     git show $BASE:$f > /tmp/merge_base 2>/dev/null || : > /tmp/merge_base
     if cmp -s /tmp/merge_base $W/$f; then continue; fi
